@@ -70,6 +70,10 @@ def run(ctx):
         elif outs[0] != exp:
             ctx.fail("value", "both renderings give %s, the logical document says %s" % (outs[0][:200], exp[:200]), [cases[g0], cases[g0 + 1]], outs[:2], exp)
 
+    # scalar level of both formats against the extracted Serde model
+    from props import descalar
+    ctx.correspond("scalar-both", descalar.text_cases(ctx, ctx.scale(100, 1000)) + descalar.bin_cases(ctx, ctx.scale(60, 600)), nontrivial=nt)
+
 
 def search(ctx):
     import random
